@@ -143,8 +143,9 @@ Definition setitem_grown (i : Z) (x : elt) (inf : list elt) (l : list elt) : opt
 
 (* ---- a shallow copy of the owner:  q = copy.copy(p) -------------------------------------------------------------------------
    The copy bypasses __set__: p and q hold ONE monitored container (plain Python shares the list as well).  The container records for
-   the owner it is bound to: __get__ (every x.f.<method>(...), x.f[i] = v, x.f += ...) re-binds it to the reader; plain assignment
-   x.f = value goes through __set__ only, which does NOT re-bind an already monitored attribute (known finding C16-j). *)
+   the owner it is bound to: __get__ (every x.f.<method>(...), x.f[i] = v, x.f += ...) re-binds it to the reader, and since e598545
+   __set__ re-binds an already monitored attribute to the object it is called on, so a write through either owner is recorded for
+   that owner.  (cstep_old: before e598545 plain assignment recorded for the owner bound last.) *)
 Inductive who := WP | WQ.
 Inductive cop :=
 | CRead (w : who)                       (* w.f is read *)
@@ -157,7 +158,12 @@ Definition cstep (o : cop) (s : cshared) : cshared :=
   match o with
   | CRead w => {| sitems := sitems s; recs := recs s; bound := w |}
   | CAppend w x => {| sitems := sitems s ++ [x]; recs := rec_for w [x] s; bound := w |}
+  | CAssign w vs => {| sitems := vs; recs := rec_for w vs s; bound := w |}
+  end.
+Definition cstep_old (o : cop) (s : cshared) : cshared :=
+  match o with
   | CAssign w vs => {| sitems := vs; recs := rec_for (bound s) vs s; bound := bound s |}
+  | _ => cstep o s
   end.
 Definition clone_init (vs0 : list elt) : cshared :=
   {| sitems := vs0; recs := fun w => match w with WP => vs0 | WQ => [] end; bound := WP |}.
